@@ -4,12 +4,13 @@ import Driver.Mime
 import Driver.Net
 import Driver.Headers
 import Driver.Cookie
+import Driver.Parser
 
 open Drv
 
 def dispatch (line : String) : String :=
   let ws := words line
-  let ops : List (List String → Option String) := [base64Op, mimeOp, netOp, headersOp, cookieOp]
+  let ops : List (List String → Option String) := [base64Op, mimeOp, netOp, headersOp, cookieOp, parserOp]
   match ops.findSome? (fun f => f ws) with
   | some r => r
   | none => "bad-op"
